@@ -226,8 +226,10 @@ pub fn mutate(rng: &mut Rng, valid: &[u8], other: &[u8]) -> (&'static str, Vec<u
 
 /// Mid-size containers of handle-carrying children (strings / small arrays): reading past the first
 /// thousand children while earlier handles are still in use exercises the stability of element addresses.
-pub fn gen_mid(rng: &mut Rng, which: usize) -> Wire {
-    let n = [1025usize, 1040, 1100, 2049, 4100][which % 5];
+pub fn gen_mid(rng: &mut Rng, which: usize) -> Wire { gen_mid_n(rng, which, [1025usize, 1040, 1100, 2049, 4100][which % 5]) }
+
+/// Two large flat containers of handle-carrying children (strings / one-element arrays / pairs), `n` each.
+pub fn gen_mid_n(rng: &mut Rng, which: usize, n: usize) -> Wire {
     let strs = |tag: &str, n: usize| -> Vec<Wire> { (0..n).map(|i| Wire::Str(StrFmt::Fix, format!("{}{}", tag, i).into_bytes())).collect() };
     match (which / 5) % 3 {
         0 => Wire::Arr(LenFmt::Fix, vec![Wire::Arr(len_fmt(rng, n, true), strs("a", n)), Wire::Arr(len_fmt(rng, n, true), strs("b", n))]),
